@@ -40,8 +40,18 @@ class Ret(Exception):
 
 
 class Fn:
-    def __init__(self, params, body, caps):
-        self.params, self.body, self.caps = params, body, caps
+    def __init__(self, params, body, caps, guard=None):
+        # a parameter is a name or [type, name]
+        self.params = [p[1] if isinstance(p, list) else p for p in params]
+        self.ptys = [p[0] if isinstance(p, list) else None for p in params]
+        self.body, self.caps, self.guard = body, caps, guard
+
+    def accepts(self, i, v):
+        t = self.ptys[i]
+        if t is None:
+            return True
+        return {"int": isinstance(v, int) and not isinstance(v, bool), "bool": isinstance(v, bool),
+                "string": isinstance(v, str)}.get(t, False)
 
 
 UNDEF, VOID = ("undef",), ("void",)
@@ -69,7 +79,7 @@ class Interp:
     def __init__(self, fault_at=10 ** 6, fault_kind="std", max_steps=200000):
         self.out, self.nat, self.ncb = [], [], 0
         self.fault_at, self.fault_kind = fault_at, fault_kind
-        self.funs = {}                     # name -> {arity: Fn}
+        self.funs = {}                     # name -> list of overloads (Fn) in registration order
         self.frames = [[{}]]               # stack of frames; frame = list of scopes (dict name -> Box)
         self.steps, self.max_steps = 0, max_steps
 
@@ -110,9 +120,33 @@ class Interp:
             if len(fn.params) != len(args):
                 raise EvalError("dispatch")
         elif isinstance(f.v, tuple) and f.v[0] == "fobj":
-            fn = self.funs[f.v[1]].get(len(args))
-            if fn is None:
+            # overload resolution: the overloads of that arity whose typed parameters accept the arguments; the one with the
+            # most exactly-typed parameters first, guarded before unguarded, then in order of definition; the first whose
+            # guard holds is called.  An exception raised by a guard is an exception of the call.
+            cands = [(sum(1 for i in range(len(args)) if fn.ptys[i] is None), fn.guard is None, k, fn)
+                     for k, fn in enumerate(self.funs[f.v[1]]) if len(fn.params) == len(args)]
+            chosen = None
+            for _, _, _, fn in sorted(cands, key=lambda c: c[:3]):
+                if not all(fn.accepts(i, a.v) for i, a in enumerate(args)):
+                    continue
+                if fn.guard is not None:
+                    self.frames.append([{}])
+                    try:
+                        for p, a in zip(fn.params, args):
+                            self.declare(p, a)
+                        try:
+                            g = self.ev(fn.guard)
+                        except Ret as r:
+                            g = r.box
+                    finally:
+                        self.frames.pop()
+                    if g.v is not True:
+                        continue
+                chosen = fn
+                break
+            if chosen is None:
                 raise EvalError("dispatch")
+            fn = chosen
         else:
             raise EvalError("notFunction")
         self.frames.append([dict(sorted(fn.caps.items()))])
@@ -272,11 +306,13 @@ class Interp:
                 if isinstance(caps[c].v, tuple) and caps[c].v[0] == "fobj":
                     raise EvalError("cantFind")
             return Box(Fn(n[2], n[3], caps))
-        if op == "def":
-            d = self.funs.setdefault(n[1], {})
-            if len(n[2]) in d:
-                raise EvalError("redefined")
-            d[len(n[2])] = Fn(n[2], n[3], {})
+        if op in ("def", "defg"):
+            new = Fn(n[2], n[3], {}) if op == "def" else Fn(n[2], n[4], {}, guard=n[3])
+            d = self.funs.setdefault(n[1], [])
+            for old in d:
+                if len(old.params) == len(new.params) and old.guard is None and new.guard is None and old.ptys == new.ptys:
+                    raise EvalError("redefined")
+            d.append(new)
             return Box(VOID)
         if op == "try":
             body, clauses = n[1], n[2:]
